@@ -2228,10 +2228,12 @@ fn create_parser_thread(
                                     .and_then(|s| s.to_str())
                                     .unwrap_or_default();
                                 info!(log, "opened file {} {:?}", input_file_name, &fi);
+                                // low mark: a max. sized msg plus the 4 bytes of the next storage
+                                // header pattern (the parser checks them to detect corrupt msgs)
                                 let buf_reader = LowMarkBufReader::new(
                                     fi,
                                     BUFREADER_CAPACITY,
-                                    DLT_MAX_STORAGE_MSG_SIZE,
+                                    DLT_MAX_STORAGE_MSG_SIZE + 4,
                                 );
                                 get_dlt_message_iterator(
                                     file_ext,
